@@ -6,9 +6,14 @@ have executed (a crash between any two segments of any operations, including in 
 flush or a compaction), then `crash()`, `recover_from_crash()`, read every key, `recover_from_crash()`
 again, read, `crash()` + `recover_from_crash()` again, read.  The Lean model (`HappyModel/C14` + crash
 / recover in `Lsm.lean`, driver `HappyModel/C15/Driver.lean`) replays the same schedule prefix and
-the same crash; transcripts are diffed.  The Lean Spec (`HappyModel/C15/Spec.lean`) judges the
-implementation's own reads against the write history with sync-completion marks.
-Quick tier samples crash indices per workload, thorough enumerates every index.
+the same crash; transcripts are diffed.  The Lean Spec (`HappyModel/C15/Spec.lean`, `judgeCrashAck`) judges the
+implementation's own reads against the write history.  Which writes count as durable is decided from what the
+clients were told, not only from the log's own `synced_up_to`: a write whose `append` was told "sync now" by the
+sync policy and went on after the sync latency (observed through recording subclasses of the real policies), and
+under SyncEveryWrite every write whose `put()` / `delete()` returned, is durable — with every write of a smaller
+sequence number (an fsync covers the entries appended before it).
+Quick tier samples crash indices per workload — always including the indices just after a write's last segment,
+all of them for the sync-overlap bursts (writers whose fsyncs overlap) — thorough enumerates every index.
 """
 from __future__ import annotations
 
@@ -23,7 +28,7 @@ from hv import core
 import os as _os
 _os.environ.setdefault("HV_SERIAL", "1")
 from hv.props import c14_impl as I
-from hv.props.c14 import config_lines, declared_ops, gen_lsm_case, observe, remember, sched_lines, C14
+from hv.props.c14 import KEYSETS, config_lines, declared_ops, gen_lsm_case, gen_strategy, observe, remember, sched_lines, C14
 
 
 def reads(case, lsm):
@@ -32,6 +37,54 @@ def reads(case, lsm):
         v = lsm.get_sync(k)
         out.append("-" if v is None else str(v))
     return " ".join(out)
+
+
+def gen_sync_overlap(rng, tier):
+    """concurrent writers whose WAL appends reach their sync decision while another append's fsync is still in
+    flight: start offsets and pauses are fractions of the sync latency; memtables mostly large enough that no flush
+    moves the data to an SSTable, so an acknowledged write lives in the log only"""
+    keys = rng.choice(KEYSETS)
+    nk = len(keys)
+    ws = rng.choice([300, 1000, 2500])
+    ww = rng.choice([50, 100, 400])
+    lat = {"r": rng.choice([500, 1000]), "w": rng.choice([1000, 2000]), "ww": ww, "ws": ws}
+    gaps = [0, 10, ww, ws // 4, ws // 2, ws - 10, ws, ws + 10, ww + ws // 2]
+    r = rng.random()
+    wal = ["every"] if r < 0.6 else (["batch", rng.choice([1, 2, 2, 3])] if r < 0.85 else ["periodic", rng.choice([200, ws, 4000])])
+    workers, v, t = [], 0, rng.choice([0, 0, 250, 1000])
+    written = []
+    for w in range(rng.choice([2, 2, 3, 4])):
+        ops = []
+        for j in range(rng.choice([1, 1, 2, 3])):
+            if j or rng.random() < 0.3:
+                ops.append(["sleep", rng.choice(gaps)])
+            k = rng.randrange(nk)
+            if written and rng.random() < 0.25:
+                ops.append(["del", rng.choice(written)])
+            else:
+                v += 1
+                ops.append(["put", k, v])
+                written.append(k)
+        workers.append({"start": t, "ops": ops})
+        t += rng.choice(gaps)
+    if rng.random() < 0.3:
+        workers.append({"start": t + rng.choice([ws, 3 * ws]), "ops": [["get", rng.randrange(nk)], ["scan", 0, nk]]})
+    return {"family": "crash", "keys": keys, "mem": rng.choice([1, 2, 4, 8, 8]), "levels": rng.choice([2, 3]),
+            "strategy": gen_strategy(rng), "wal": wal, "lat": lat, "workers": workers}
+
+
+def ack_points(base, sched):
+    """crash indices right after the last segment of every write (its put()/delete() has just returned) and one
+    and two segments later"""
+    kinds = dict(declared_ops(base))
+    last = {}
+    for i, opid in enumerate(sched):
+        last[opid] = i
+    out = set()
+    for opid, i in last.items():
+        if kinds.get(opid, ["?"])[0] in ("put", "del"):
+            out |= {i + 1, i + 2, i + 3}
+    return {k for k in out if k <= len(sched)}
 
 
 class C15(core.Property):
@@ -47,18 +100,29 @@ class C15(core.Property):
     case_timeout_s = 20
     rule = ("family crash: a C14 LSM workload (2–4 workers, ≤40 put/delete/get/scan over 3–5 keys, memtable 1–3, 2–4 levels, "
             "every compaction strategy) with a real WriteAheadLog under SyncEveryWrite / SyncOnBatch(1–3) / SyncPeriodic, and a crash "
-            "index k = number of generator segments executed before crash(); quick: 6 sampled k per workload (always 0-th, last and "
-            "random ones), thorough: every k of every workload; non-trivial when at least one WAL sync had completed and at least one "
+            "index k = number of generator segments executed before crash(); 30 % of the workloads are sync-overlap bursts (2–4 writers, "
+            "1–3 writes each, start offsets and pauses 0 / 10 µs / write latency / ¼, ½, 1 sync latency ± 10 µs apart so that an append "
+            "reaches its sync decision while another append's fsync is in flight; memtable 1–8; 60 % SyncEveryWrite); quick: 6 sampled k "
+            "per workload (always 0-th, last and random ones) plus the indices 1–3 segments after the last segment of a write (its "
+            "acknowledgement) — all of them for the bursts, 4 sampled otherwise; thorough: every k of every workload; non-trivial when at least one WAL sync had completed and at least one "
             "write was started before the crash; distinct = distinct (workload, k)")
     trusted_base = C14.trusted_base + [
         "WAL sequence number of a write = wal.stats.writes + 1 read just before the operation starts (public API)",
+        "sync decisions are observed through the SyncPolicy object handed to the WriteAheadLog (recording subclasses of the three "
+        "real policies, hv/props/c14_impl.py make_policy)",
     ]
     assumptions = [
         "values written by puts are pairwise distinct in generated cases",
-        "a write is durable iff its WAL sequence number ≤ wal.synced_up_to at the crash",
+        "a write is durable iff its WAL sequence number ≤ wal.synced_up_to at the crash, or ≤ the sequence number of a write whose sync "
+        "the clients saw complete (the sync policy answered 'sync now' inside that write and the write went on after the sync latency; "
+        "under SyncEveryWrite also: its put()/delete() returned) — an fsync covers every entry appended before it",
         "the simulation is not continued after crash() (in-flight generators are abandoned)",
     ]
     hypotheses = [
+        "syncsInOrderB (sync_done_durable, acked_every_sync_done, ack_bound_le_synced, crash_spec_ack): sync completions happen in the order of "
+        "their WAL sequence numbers — WriteAheadLog.append sets synced_up_to := its own sequence number after the sync latency, which is "
+        "monotone only then; holds in the engine because every sync costs the same latency and equal times are served first-in first-out "
+        "(a schedule violating it is exhibited in Props.lean: ackBound exceeds synced)",
         "trunc_bound_lt_pending: the sequence number is pending (appended, not yet applied to a memtable) or not yet handed out, and >= 1",
     ]
     partial_theorems = {
@@ -70,6 +134,11 @@ class C15(core.Property):
                                    "memtable insert is still in the log or already in an installed SSTable with sequence number <= the truncation point, and a "
                                    "flush's bound is below every pending sequence number. Not covered by a theorem: that the implementation runs the model's "
                                    "segments (checked by comparison on every case and every crash index).",
+        "crash_spec_ack (hypotheses, not gaps)": "the Spec the check evaluates is judgeCrashAck: durability judged from acknowledgements (a write whose append was told "
+                                   "to sync and went on after the sync latency, and under SyncEveryWrite every write whose put()/delete() returned, is durable together "
+                                   "with every write of a smaller sequence number) as well as from synced_up_to. crash_spec_ack / crash_spec_ack_at_every_index: the "
+                                   "model's own observations satisfy it for every workload, policy, schedule and crash index under the crash_spec hypotheses plus "
+                                   "syncsInOrderB; sync_done_durable / acked_every_sync_done: every such write has sequence number <= synced_up_to in the model.",
         "no_invention": "state level (HappyModel.C15.no_invention): a recovered cell is the cell of a surviving log entry of that key or is held by an SSTable; "
                         "run level: crash_facts_run gives a started put of the workload for every recovered value.",
     }
@@ -79,14 +148,19 @@ class C15(core.Property):
 
     def generate(self, rng: random.Random, i: int, tier: str) -> dict:
         if not self._queue:
-            base = gen_lsm_case(rng, tier, wal_force=True)
+            overlap = rng.random() < 0.3
+            base = gen_sync_overlap(rng, tier) if overlap else gen_lsm_case(rng, tier, wal_force=True)
             base["family"] = "crash"
             sched, _ = observe(dict(base, crash=None))
             n = len(sched)
             if tier == "thorough":
                 ks = list(range(n + 1))
             else:
-                ks = sorted({0 if rng.random() < 0.1 else rng.randint(1, max(1, n)), n} | {rng.randint(0, n) for _ in range(5)})
+                ks = {0 if rng.random() < 0.1 else rng.randint(1, max(1, n)), n} | {rng.randint(0, n) for _ in range(5)}
+                acks = sorted(ack_points(base, sched))
+                # densely after acknowledgements: all of them for the sync-overlap workloads, a sample otherwise
+                ks |= set(acks if overlap and len(acks) <= 24 else rng.sample(acks, k=min(len(acks), 4)))
+                ks = sorted(ks)
             for k in ks:
                 self._queue.append(dict(base, crash=k))
             self._queue.reverse()
@@ -98,10 +172,11 @@ class C15(core.Property):
         rec, lsm, wal = I.run_lsm(case, crash_at=k)
         remember(case, k, rec)
         out = I.op_lines(rec)
+        done = I.sync_done_ops(rec)
         for opid in sorted(rec.ops):
             e = rec.ops[opid]
             if e[0][0] in ("put", "del"):
-                out.append(f"w {opid} {e[4]} {e[1]} {'x' if e[2] is None else e[2]}")
+                out.append(f"w {opid} {e[4]} {e[1]} {'x' if e[2] is None else e[2]} {1 if opid in done else 0}")
         out.append(f"synced {wal.synced_up_to}")
         out.append(f"appended {wal.stats.writes}")
         lsm.crash()
@@ -182,6 +257,12 @@ THEOREMS = [
     "HappyModel.C15.judgeCrash_of_facts",
     "HappyModel.C15.crash_spec",
     "HappyModel.C15.crash_spec_at_every_index",
+    "HappyModel.C15.syncDoneRun_fst",
+    "HappyModel.C15.sync_done_durable",
+    "HappyModel.C15.acked_every_sync_done",
+    "HappyModel.C15.ack_bound_le_synced",
+    "HappyModel.C15.crash_spec_ack",
+    "HappyModel.C15.crash_spec_ack_at_every_index",
 ]
 C15.theorems = THEOREMS
 PROPERTY = C15()
